@@ -198,8 +198,14 @@ def run_shard(shard, rec):
     else:
         firsts = [feats[i] for i in range(shard["chunk"], len(feats), shard["of"])]
         colls = ([f0] + list(rest) for f0 in firsts for rest in itertools.product(feats, repeat=n - 1))
-    for coll in colls:
-        check_case({"features": list(coll), "extra": [], "pos": "last", "indent": "default", "suffix": ""}, rec)
+    for i, coll in enumerate(colls):
+        coll = list(coll)
+        check_case({"features": coll, "extra": [], "pos": "last", "indent": "default", "suffix": ""}, rec)
+        # every 4th collection also with the properties of its last feature listed in the reverse order
+        # (the order of the members of a JSON object carries no meaning)
+        if n >= 2 and i % 4 == 1 and len(coll[-1]["properties"]) >= 2:
+            last = dict(coll[-1], properties=dict(reversed(list(coll[-1]["properties"].items()))))
+            check_case({"features": coll[:-1] + [last], "extra": [], "pos": "last", "indent": "default", "suffix": ""}, rec)
 
 
 # ---------------------------------------------------------------------------
